@@ -43,7 +43,8 @@ theorem bodyProbe_guard (go : Call → St → St × Ret) (srvId key : Nat) (s : 
               simp only [Bool.and_eq_true, decide_eq_true_eq, Bool.not_eq_eq_eq_not, Bool.not_true, hnow] at hp
               simp only [Bool.or_eq_true, beq_iff_eq, not_or] at hcond
               rw [guardGo_of_guard]
-              show probeSendOk pv.id _ = true
+              show (pv.id == pv.id && probeSendOk pv.id _) = true
+              rw [beq_self_eq_true, Bool.true_and]
               unfold probeSendOk
               simp only [Bool.and_eq_true]
               refine ⟨⟨?_, ?_⟩, ?_⟩
@@ -218,19 +219,19 @@ theorem probeSendOk_spec (id : Nat) (s : St) (h : probeSendOk id s = true) :
   · cases h3
 
 /-- the assertion at a probe's `sendNolock`, spelled out -/
-theorem probeGuard_spec (srv : Option Nat) (nocache noretry : Bool) (spec : ReqSpec) (react : List Nat) (s : St)
-    (h : ProbeGuard (.sendNolock srv nocache noretry spec .probe react) s = true) :
-    ∃ id, srv = some id ∧ nocache = true ∧ noretry = true ∧ react = [] ∧ s.cfg.retryChance ≠ 0 ∧
+theorem probeGuard_spec (srv : Option Nat) (nocache noretry : Bool) (spec : ReqSpec) (pid : Nat) (react : List Nat)
+    (s : St) (h : ProbeGuard (.sendNolock srv nocache noretry spec (.probe pid) react) s = true) :
+    ∃ id, srv = some id ∧ pid = id ∧ nocache = true ∧ noretry = true ∧ react = [] ∧ s.cfg.retryChance ≠ 0 ∧
       (∃ v ∈ s.servers, v.id = id ∧ 0 < v.failures ∧ v.nextRetry ≤ s.now ∧ v.probePending = true) ∧
       ∃ key chosen prio, s.picks.getLast? = some (key, chosen, false, prio) ∧ chosen ≠ id ∧ (chosen, 0) ∈ prio := by
   cases srv with
   | none => cases h
   | some id =>
-    have h' : (nocache && noretry && react.isEmpty && probeSendOk id s) = true := h
-    simp only [Bool.and_eq_true, List.isEmpty_iff] at h'
-    obtain ⟨⟨⟨h1, h2⟩, h3⟩, h4⟩ := h'
+    have h' : (nocache && noretry && react.isEmpty && pid == id && probeSendOk id s) = true := h
+    simp only [Bool.and_eq_true, List.isEmpty_iff, beq_iff_eq] at h'
+    obtain ⟨⟨⟨⟨h1, h2⟩, h3⟩, hp⟩, h4⟩ := h'
     obtain ⟨a, b, c⟩ := probeSendOk_spec id s h4
-    exact ⟨id, rfl, h1, h2, h3, a, b, c⟩
+    exact ⟨id, rfl, hp, h1, h2, h3, a, b, c⟩
 
 /-- with distinct server ids the eligible server is the one `server? id` finds -/
 theorem probeSendOk_server (id : Nat) (s : St) (hn : s.IdsNodup) (h : probeSendOk id s = true) :
